@@ -408,7 +408,7 @@ class C11(ModelCheck):
     assumptions = ["CPython module semantics are the reference; scripts are imported as script_<name> modules there", "the session context is created the way jupyter_kernel_start creates it (GlobalContext + AstEval), without a kernel; the session reference is a plain dictionary namespace switched by hand"]
 
     def n_random(self, tier):
-        return {"quick": 640, "thorough": 24000}[tier]
+        return {"quick": 1280, "thorough": 24000}[tier]
 
     def gen(self, R):
         return gen(R)
